@@ -1654,6 +1654,7 @@ func c11Run(ctx *core.Ctx, env *c11Env, d interface {
 		}
 		ncol = len(c.schema.Columns())
 		aspects, stat := c11Settings(c.b, outInfo, refInfo, ncol)
+		aspects = append(aspects, c11DictLimitSettings(ctx, c.b, out.file, outInfo, ref, refInfo, ncol)...) // c11_fallback.go
 		if len(c.b.Bloom) > 0 {
 			aspects = append(aspects, c11BloomSettings(c.b, c.schema.Columns(), outInfo, refInfo, !c.falseCounts)...)
 			ctx.Hist("bloom-settings-checked", fmt.Sprintf("%s gzip=%v", pathSig, c.b.BloomGzip))
